@@ -148,12 +148,18 @@ static const unsigned long xv_ap_p10[20] = { 1UL, 10UL, 100UL, 1000UL, 10000UL, 
     10000000000000000UL, 100000000000000000UL, 1000000000000000000UL, 10000000000000000000UL };
 /* decimal digits by repeated subtraction of powers of ten (no division: see strtol) */
 #define XV_AP_SUB(mag, p, d) if ((mag) >= (p)) { (mag) -= (p); (d)++; }
+/* XV_AP_ZD_DIGITS (bounded plain-CBMC jobs only): number of decimal digits the job can produce; the model ASSERTS that
+ * the magnitude fits, so a too small value is a failed obligation, not an assumption */
+#ifndef XV_AP_ZD_DIGITS
+#define XV_AP_ZD_DIGITS 20
+#endif
 static void xv_ap_putzd(struct xv_ap_sink *k, size_t v)
 {
     unsigned long mag = v;
     if ((long)v < 0) { xv_ap_putc(k, '-'); mag = 0UL - v; }
+    __CPROVER_assert(XV_AP_ZD_DIGITS == 20 || mag < xv_ap_p10[XV_AP_ZD_DIGITS < 20 ? XV_AP_ZD_DIGITS : 19], "XV snprintf model: XV_AP_ZD_DIGITS suffices");
     unsigned nd = 1, j;
-    for (j = 1; j < 20; j++)            /* loop xv_ap_putzd.0 */
+    for (j = 1; j < XV_AP_ZD_DIGITS; j++)            /* loop xv_ap_putzd.0 */
         if (mag >= xv_ap_p10[j]) nd = j + 1;
     for (j = nd; j > 0; j--) {          /* loop xv_ap_putzd.1 */
         unsigned long p = xv_ap_p10[j - 1];
